@@ -1,0 +1,35 @@
+//go:build verif
+
+package evaluator
+
+// Contracts checked by /verif (vcgo). Comment-only: no executable code.
+// (loop numbers follow the engine's numbering: 1 = the final range over the map, 2-4 = the nest over classes, methods and annotations)
+// C18, nullable report: the listed items are exactly the methods that may return null (a return statement mentioning
+// null, or a @Nullable / @CheckForNull annotation), each under its full path package.class.method and each once.
+
+//@ spec MPath(d core_domain.CodeDataStruct, f core_domain.CodeFunction) string := d.Package + "." + d.NodeName + "." + f.Name
+//@ spec rec NullAnn(as []core_domain.CodeAnnotation, n int) bool := n <= 0 ? false : (NullAnn(as, n - 1) || as[n - 1].Name == "Nullable" || as[n - 1].Name == "CheckForNull")
+//@ spec MayNull(f core_domain.CodeFunction) bool := f.IsReturnNull || NullAnn(f.Annotations, len(f.Annotations))
+//@ spec rec NullF(fs []core_domain.CodeFunction, n int, d core_domain.CodeDataStruct, s string) bool := n <= 0 ? false : (NullF(fs, n - 1, d, s) || (MayNull(fs[n - 1]) && MPath(d, fs[n - 1]) == s))
+//@ spec rec NullD(ds []core_domain.CodeDataStruct, n int, s string) bool := n <= 0 ? false : (NullD(ds, n - 1, s) || NullF(ds[n - 1].Functions, len(ds[n - 1].Functions), ds[n - 1], s))
+
+//@ func buildMethodPath
+//@ ensures result == MPath(ident, method)
+
+//@ method NullPointException.EvaluateList
+//@ requires evaluateModel != nil
+//@ modifies *evaluateModel
+//@ ensures forall s string :: {NullD(identifiers, len(identifiers), s)} NullD(identifiers, len(identifiers), s) ==> (exists i int :: 0 <= i && i < len((*evaluateModel).Nullable.Items) && (*evaluateModel).Nullable.Items[i] == s)
+//@ ensures forall i int :: {(*evaluateModel).Nullable.Items[i]} 0 <= i && i < len((*evaluateModel).Nullable.Items) ==> NullD(identifiers, len(identifiers), (*evaluateModel).Nullable.Items[i])
+//@ loop 2 invariant nullableMap != nil && (forall s string :: {s in nullableMap} {NullD(identifiers, #i, s)} (s in nullableMap) <==> NullD(identifiers, #i, s))
+//@ loop 2 invariant forall s string :: {nullableMap[s]} (s in nullableMap) ==> nullableMap[s] == s
+//@ loop 3 invariant nullableMap != nil && (forall s string :: {s in nullableMap} {NullF(ident.Functions, #i, ident, s)} (s in nullableMap) <==> (NullD(identifiers, #i2, s) || NullF(ident.Functions, #i, ident, s)))
+//@ loop 3 invariant forall s string :: {nullableMap[s]} (s in nullableMap) ==> nullableMap[s] == s
+//@ loop 4 invariant nullableMap != nil && !method.IsReturnNull && methodName == MPath(ident, method)
+//@ loop 4 invariant forall s string :: {s in nullableMap} (s in nullableMap) <==> (NullD(identifiers, #i2, s) || NullF(ident.Functions, #i3, ident, s) || (NullAnn(method.Annotations, #i) && s == methodName))
+//@ loop 4 invariant forall s string :: {nullableMap[s]} (s in nullableMap) ==> nullableMap[s] == s
+//@ loop 1 invariant len(nullableList) == NVisited()
+//@ loop 1 invariant forall k string :: {Visited(k)} Visited(k) ==> (exists i int :: 0 <= i && i < len(nullableList) && nullableList[i] == nullableMap[k])
+//@ loop 1 invariant forall i int :: {nullableList[i]} 0 <= i && i < len(nullableList) ==> (exists k string :: (k in nullableMap) && nullableList[i] == nullableMap[k])
+//@ loop 1 assert len(nullableList) == len(nullableList@pre) + 1 && nullableList[len(nullableList) - 1] == value
+//@ loop 1 assert forall r int :: {nullableList[r]} {nullableList@pre[r]} 0 <= r && r < len(nullableList@pre) ==> nullableList[r] == nullableList@pre[r]
